@@ -410,6 +410,8 @@ def validate(trace_path, timeout=3000):
 def n_evals(sc):
     if sc["kind"] == "vmap":
         return 2
+    if sc["kind"] == "glide":
+        return sc["w"] + sc["d"] + 3
     return len(sc["obs"]) if sc["kind"] == "geo" else sum(1 for s in sc["steps"] if s["a"] == "cb")
 
 
@@ -427,6 +429,10 @@ def run(tier):
     # a distance mapping installed through the handle (with a tween), then the emitter moves
     geo += [{"kind": "vmap", "cls": "vmap", "d": d, "x1": x1, "x2": x2, "src": "grid-vmap"}
             for d in (0, 2) for x1, x2 in ((3, 12), (10, 2), (0, 16), (8, 8), (16, 5))]
+    # a rigid motion under way: listener and emitter glide together (same tween, started at once or at a clock tick)
+    geo += [{"kind": "glide", "cls": "glide", "sk": sk, "w": w, "d": d, "t": t, "e": e, "st": st, "src": "grid-glide"}
+            for sk, w in (("imm", 1), ("clk", 1), ("clk", 2)) for d in (0, 1, 3)
+            for t, e, st in (([4.0, 0.0, 0.0], [2.0, 0.0, 1.0], 750), ([-3.0, 2.0, 5.0], [-2.0, 1.0, -2.0], 1000), ([0.0, 0.0, -6.0], [0.0, 3.0, 0.0], 0))]
     scen = life + geo
     sp = os.path.join(OUT, "c15", "scen.ndjson")
     tp = os.path.join(OUT, "c15", "trace.ndjson")
